@@ -75,19 +75,6 @@ impl Story {
         Story::pointer_at_path(&self.main_content_container, &path_to_choose)?;
         StoryState::values_from_arguments(args)?;
 
-        // A story that holds an undelivered error cannot run anything
-        if self.get_state().has_error() {
-            return Err(StoryError::InvalidStoryState(
-                "Can't evaluate a function while the story has an unhandled error.".to_owned(),
-            ));
-        }
-
-        // The nested continue would check the external bindings only after the
-        // evaluation frame has been pushed: check them while nothing is changed
-        if !self.has_validated_externals {
-            self.validate_external_bindings()?;
-        }
-
         if reset_call_stack {
             self.reset_callstack()?;
         } else {
@@ -165,8 +152,22 @@ impl Story {
         // Refuse unsupported argument types before anything is changed
         StoryState::values_from_arguments(args)?;
 
-        // Snapshot the output stream
+        // A story that holds an undelivered error cannot run anything
+        if self.get_state().has_error() {
+            return Err(StoryError::InvalidStoryState(
+                "Can't evaluate a function while the story has an unhandled error.".to_owned(),
+            ));
+        }
+
+        // The nested continue would check the external bindings only after the
+        // evaluation frame has been pushed: check them while nothing is changed
+        if !self.has_validated_externals {
+            self.validate_external_bindings()?;
+        }
+
+        // Snapshot the output stream, and the place the main story last was
         let output_stream_before = self.get_state().get_output_stream().clone();
+        let previous_pointer_before = self.get_state().get_previous_pointer();
         self.get_state_mut().reset_output(None);
 
         // State will temporarily replace the callstack in order to evaluate
@@ -186,8 +187,16 @@ impl Story {
             .reset_output(Some(output_stream_before));
 
         // Finish evaluation, and see whether anything was produced
-        self.get_state_mut()
-            .complete_function_evaluation_from_game()
+        let result = self
+            .get_state_mut()
+            .complete_function_evaluation_from_game();
+
+        // Stepping through the function moved the previous pointer of the
+        // thread it shares with the main story
+        self.get_state()
+            .set_previous_pointer(previous_pointer_before);
+
+        result
     }
 
     pub(crate) fn visit_changed_containers_due_to_divert(&mut self) {
